@@ -12,7 +12,7 @@ import (
 func init() {
 	register("C12", &propDef{
 		Title: "Failures are reported, never turned into silently partial results",
-		Rules: []func(*Checker){ruleC12Errors, ruleC12Illegal, ruleC12Whole, ruleC12Poison, ruleC12Closed, ruleC12Manifest, ruleC12Diags, ruleC12DiagCopy},
+		Rules: []func(*Checker){ruleC12Errors, ruleC12Illegal, ruleC12Whole, ruleC12Poison, ruleC12Closed, ruleC12Manifest, ruleC12Diags, ruleC12DiagCopy, ruleRootLink("C12.rootlink")},
 		NotDecided: []string{
 			"behaviour at a given byte offset; what archive/tar and compress/gzip report on truncation (library)",
 			"which error text is produced",
@@ -45,6 +45,34 @@ func (p *Prog) errorIdiom(fn *ssa.Function, ci ssa.CallInstruction, ev ssa.Value
 			if ok {
 				return "transient constant mode before a retried create of the same path: a failure resurfaces as the create's error, which is consumed"
 			}
+		}
+	case cn == "os.Remove" && len(nonNil) > 0:
+		// removal of a directory only if it is empty: os.Remove (not RemoveAll) in a walk callback, where the
+		// ok edge returns filepath.SkipDir (it is gone) and the failing edge keeps the directory and goes on.
+		// The failure is the answer to "is it empty?", not a fault.
+		cl, _ := ci.(*ssa.Call)
+		if cl == nil {
+			break
+		}
+		okE, _ := okEdgesOfCall(cl)
+		skips := len(okE) > 0
+		for _, e := range okE {
+			found := false
+			for b := range reachFromEdge(e) {
+				if r, ok := b.Instrs[len(b.Instrs)-1].(*ssa.Return); ok {
+					for _, v := range returnValues(r, 0) {
+						if v != nil && isSkipDirValue(v) {
+							found = true
+						}
+					}
+				}
+			}
+			if !found {
+				skips = false
+			}
+		}
+		if skips {
+			return "os.Remove used as 'remove the directory if it is empty': success skips it, failure keeps it and the walk goes on below it"
 		}
 	case cn == "path/filepath.Rel":
 		// the error is one conjunct of a containment decision: "cannot be made relative" counts as "not inside"
@@ -554,12 +582,26 @@ func ruleC12Whole(c *Checker) {
 		s, ok := constString(bo.Y)
 		return ok && s == "" && isHeaderFieldLoad(bo.X, "Name")
 	})
+	// a PAX header record (Typeflag 'g' or 'x') describes no file: skipping it unvalidated is by design
+	xhdrT, _ := condEdges(U, func(v ssa.Value) bool {
+		bo, ok := v.(*ssa.BinOp)
+		if !ok || bo.Op != token.EQL {
+			return false
+		}
+		k, ok := constInt(bo.Y)
+		return ok && (k == 'g' || k == 'x') && isHeaderFieldLoad(bo.X, "Typeflag")
+	})
 	for i, pr := range head.Preds {
 		if !reaches(head, pr) {
 			continue // loop entry
 		}
-		okb := p.guardedC(pr, u.CtorOK) || guarded(pr, nameEmptyT) || pr == nameEmptyTFrom(nameEmptyT)
-		c.check(okb, R, name, fmt.Sprintf("back edge %d", i), p.Pos(firstPos(pr)), "taken only for an empty name or after a successful validation", "an entry can be skipped before it was validated, on an edge other than the empty-name test")
+		okb := p.guardedC(pr, u.CtorOK) || guarded(pr, nameEmptyT) || pr == nameEmptyTFrom(nameEmptyT) || guarded(pr, append(append([]Edge{}, nameEmptyT...), xhdrT...))
+		for _, e := range xhdrT {
+			if e.From == pr || e.To() == pr {
+				okb = true
+			}
+		}
+		c.check(okb, R, name, fmt.Sprintf("back edge %d", i), p.Pos(firstPos(pr)), "taken only for an empty name, a PAX header record, or after a successful validation", "an entry can be skipped before it was validated, on an edge other than the empty-name test")
 	}
 }
 
